@@ -273,13 +273,13 @@ def St.init : St := {}
 
 def validT (t : Nat) : Bool := 1 ≤ t && t ≤ 14
 
-/-- one line → (state, model output, spec output) -/
 /-- `biglen <remlen>`: a QoS 0 PUBLISH with that remaining length (topic "a"), too large to travel as hex:
 the model's `hdrLen` / `putUvarint`, the specification's `Wire.varint` -/
 def bigLenLine (hdr : Nat → Nat) (vi : Nat → Bytes) (rl : Nat) : String :=
   let l := hdr rl + rl
   s!"len={l} enc=ok n={1 + (vi rl).length + rl} head={hexOf (0x30 :: vi rl)} rt=1 exact=ok"
 
+/-- one line → (state, model output, spec output) -/
 def handle (st : St) (ws : List String) : St × String × String :=
   match ws with
   | ["reset"] => (St.init, "reset", "reset")
